@@ -398,12 +398,17 @@ func (c *Ctx) evalCall(env *Env, x *ast.CallExpr) Val {
 		return c.eval(&n, args[0])
 	case "pre":
 		if env.pre == nil {
-			panic(vcErr("pre() only in step clauses"))
+			panic(vcErr("pre() only in step clauses and in invariants of nested loops"))
 		}
 		n := *env
 		n.st = env.pre
 		n.atLatch = false
-		n.blk = env.fr.inLoop[env.blk].headerOf(env)
+		if env.postPhis != nil {
+			n.blk = env.fr.inLoop[env.blk].headerOf(env)
+		} else if li := env.fr.inLoop[env.blk]; li != nil && li.parent != nil {
+			// invariant of a nested loop: the head of the enclosing loop
+			n.blk = li.parent.header
+		}
 		n.phis = nil
 		return c.eval(&n, args[0])
 	case "post":
